@@ -379,6 +379,29 @@ def _cromer(ctx, F):
         ctx.check(okb, "R5", f"record {key}: b1..b5 are columns 6-10", f"b = {bv}", site)
         ctx.check(close(fr(rec.get("c")), c0), "R5", f"record {key}: c is column 5", f"c = {rec.get('c')}", site)
         ctx.check(rec.get("symbol") == key, "R5", f"record {key} carries its own symbol", f"{rec.get('symbol')}", site)
+    # the public lookups on these four records: a tabulated label is served its own record; an untabulated oxidation state or
+    # element is 'no entry' (an error), never a neighbour's record
+    get = I.global_name("cromermann", "getCMformula")
+    s_get = fsite(ctx, "cromermann.getCMformula")
+    for lab in ("H", "Si", "Fe2+", "Siva"):
+        rr_ = raises(lambda: I.call(get, [lab], {}))
+        if rr_ is not None:
+            ctx.fail("R5", f"getCMformula({lab!r}) serves the record of that label", f"raises {rr_}", s_get)
+        else:
+            rec_ = I.call(get, [lab], {})
+            ctx.check(rec_ is cm.get(lab), "R5", f"getCMformula({lab!r}) serves the record of that label", f"served {rec_!r}", s_get)
+    for lab in ("Fe3+", "Fe", "H1+", "Si4+", "Xx"):
+        rr_ = raises(lambda: I.call(get, [lab], {}))
+        served_ = None if rr_ is not None else I.call(get, [lab], {})
+        ctx.check(rr_ is not None, "R5", f"getCMformula({lab!r}): a label without a record is an error, not another label's record",
+                  f"served the record of {I.heap[served_.id].get('symbol') if served_ is not None and hasattr(served_, 'id') else served_!r}", s_get,
+                  witness=lab)
+    fq = I.global_name("cromermann", "fxrayatq")
+    Qs = sp.Symbol("Q", positive=True)
+    for sym_, ch_ in (("Fe", 3), ("Fe2+", 3), ("Si", 4)):
+        rr_ = raises(lambda: I.call(fq, [sym_, Qs], {"charge": sp.Integer(ch_)}))
+        ctx.check(rr_ is not None, "R5", f"fxrayatq({sym_!r}, Q, charge={ch_}): no record for that ion, so no value",
+                  "a value is computed from another record", fsite(ctx, "cromermann.fxrayatq"), witness=f"{sym_} charge={ch_}")
     # lint of the real file
     text = ctx.src.data_file("periodictable/xsf/f0_WaasKirf.dat")
     base = F.const("core", "element_base")
